@@ -114,6 +114,7 @@ type R2Msg struct {
 	N     int    `json:"n"`     // size parameter
 	Limit string `json:"limit"` // exact | loose | under
 	Chunk int    `json:"chunk"` // raw: read chunk size
+	Wrap  int    `json:"wrap,omitempty"` // err/rawerr: 0 an *RPCError, 1 a plain error, 2/3 an *RPCError wrapped once/twice in other errors
 }
 
 // R2Case is one rhp2 session.
@@ -160,6 +161,7 @@ type r2msgPlan struct {
 	id     types.Specifier
 	obj    rhp2.ProtocolObject // nil for id-only requests
 	rpcErr *rhp2.RPCError
+	sendErr error // what WriteResponseErr is given; rpcErr is what must arrive
 	maxLen uint64
 	frame  int // wire size of the (object) frame
 }
@@ -207,6 +209,21 @@ func checkRHP2(c R2Case) error {
 			frames[1] = append(frames[1], frameRef{i})
 		case "err", "rawerr":
 			p.rpcErr = &rhp2.RPCError{Type: r.spec(), Data: r.bytes(m.N / 2), Description: r.str(m.N)}
+			p.sendErr = p.rpcErr
+			// "If err is an *RPCError, it is sent directly; otherwise, a generic RPCError is created from err's Error
+			// string": an error that merely wraps an RPCError is not one, and the peer must get its whole text
+			switch m.Wrap {
+			case 1:
+				p.sendErr = errors.New(p.rpcErr.Description)
+			case 2:
+				p.sendErr = fmt.Errorf("couldn't lock the contract: %w", p.rpcErr)
+			case 3:
+				p.sendErr = fmt.Errorf("session %d: %w", m.N, fmt.Errorf("couldn't lock the contract: %w", p.rpcErr))
+			}
+			if m.Wrap != 0 {
+				p.rpcErr = &rhp2.RPCError{Description: p.sendErr.Error()}
+				rec.Label("rhp2:error-response-not-itself-an-RPCError")
+			}
 			payload = 1 + encLen(p.rpcErr)
 			frames[1] = append(frames[1], frameRef{i})
 		default:
@@ -360,7 +377,7 @@ func checkRHP2(c R2Case) error {
 				case (p.m.Dir == "resp" || p.m.Dir == "raw") && writer:
 					o.err = t.WriteResponse(p.obj)
 				case (p.m.Dir == "err" || p.m.Dir == "rawerr") && writer:
-					o.err = t.WriteResponseErr(p.rpcErr)
+					o.err = t.WriteResponseErr(p.sendErr)
 				case p.m.Dir == "resp":
 					o.read = true
 					got := recv(p.obj)
@@ -626,6 +643,9 @@ func drawRHP2(t *rapid.T) R2Case {
 	n := rapid.IntRange(1, 8).Draw(t, "msgs")
 	for i := 0; i < n; i++ {
 		m := R2Msg{Dir: rapid.SampledFrom([]string{"req", "req", "resp", "resp", "err", "raw", "raw", "rawerr"}).Draw(t, "dir")}
+		if m.Dir == "err" || m.Dir == "rawerr" {
+			m.Wrap = rapid.SampledFrom([]int{0, 0, 1, 2, 3}).Draw(t, "wrap")
+		}
 		if m.Dir == "err" || m.Dir == "rawerr" {
 			m.Kind = "RPCError"
 			m.N = rapid.IntRange(0, 300).Draw(t, "n")
